@@ -39,6 +39,15 @@ def posOf (bn : Nat) : Pos :=
   else if bn - NDIRECT < NBLKBLK then .ileaf (bn - NDIRECT)
   else .dleaf ((bn - NDIRECT - NBLKBLK) / NBLKBLK) ((bn - NDIRECT - NBLKBLK) % NBLKBLK)
 
+/-- the first file block a position's subtree serves -/
+def firstBn : Pos → Nat
+  | .dir i => i
+  | .iroot => NDIRECT
+  | .ileaf i => NDIRECT + i
+  | .droot => NDIRECT + NBLKBLK
+  | .dmid j => NDIRECT + NBLKBLK + NBLKBLK * j
+  | .dleaf j i => NDIRECT + NBLKBLK + NBLKBLK * j + i
+
 theorem lookup_eq_ptr (st : Store) (blks : List Nat) (bn : Nat) :
     lookup st blks bn = ptr st blks (posOf bn) := by
   unfold lookup posOf ptr
@@ -402,6 +411,8 @@ structure StepOK (s s' : S) (blks blks' : List Nat) (target : Pos) (blk : Nat) :
   frame : ∀ q, q.valid → q.isData → q ≠ target → ptr s'.st blks' q = ptr s.st blks q
   /-- a failed step changes no file block's mapping at all -/
   miss : blk = 0 → ∀ q, q.valid → q.isData → ptr s'.st blks' q = ptr s.st blks q
+  /-- nothing changes at positions (data or index) whose range starts beyond the target -/
+  above : ∀ q, q.valid → firstBn target < firstBn q → ptr s'.st blks' q = ptr s.st blks q
 
 /-- `leafStep` on an index block `r` that the tree owns (at position `P`), whose cell `i` is
     position `C` -/
@@ -416,16 +427,16 @@ theorem leafStep_ok (s : S) (blks : List Nat) (h : WFB s blks) (r i : Nat) (P C 
     rcases alloc_cases s with ⟨_, ha⟩ | ⟨a, rest, hal, ha⟩
     · rw [ha]
       simp only [if_true]
-      exact ⟨h, fun hx => absurd rfl hx, fun _ _ _ _ => rfl, fun _ _ _ _ => rfl⟩
+      exact ⟨h, fun hx => absurd rfl hx, fun _ _ _ _ => rfl, fun _ _ _ _ => rfl, fun _ _ _ => rfl⟩
     · rw [ha]
       simp only
       by_cases ha0 : a = 0
       · simp only [ha0, if_true]
-        exact ⟨WFB_skip s _ blks a rest h hal rfl rfl, fun hx => absurd rfl hx, fun _ _ _ _ => rfl, fun _ _ _ _ => rfl⟩
+        exact ⟨WFB_skip s _ blks a rest h hal rfl rfl, fun hx => absurd rfl hx, fun _ _ _ _ => rfl, fun _ _ _ _ => rfl, fun _ _ _ => rfl⟩
       · simp only [ha0, if_false]
         have hptr : ∀ q, q.valid → ptr (s.st.put r i a) blks q = if q = C then a else ptr s.st blks q := hput a
         have hafr := h.fresh
-        refine ⟨WFB_extend s _ blks blks C a rest h hal rfl ha0 hC h.len hptr ?_, ?_, ?_, fun hx => absurd hx ha0⟩
+        refine ⟨WFB_extend s _ blks blks C a rest h hal rfl ha0 hC h.len hptr ?_, ?_, ?_, fun hx => absurd hx ha0, ?_⟩
         · intro b hb hb0 x
           have hbf := h.fresh b (by rw [hal]; exact List.mem_cons_of_mem _ hb) hb0
           have hbr : b ≠ r := fun he => hbf.1 P hP (hPr.trans he.symm)
@@ -433,8 +444,12 @@ theorem leafStep_ok (s : S) (blks : List Nat) (h : WFB s blks) (r i : Nat) (P C 
           exact hbf.2 x
         · intro _; rw [hptr C hC]; simp
         · intro q hq _ hne; rw [hptr q hq]; simp [hne]
+        · intro q hq hlt
+          rw [hptr q hq]
+          have : q ≠ C := by intro he; rw [he] at hlt; exact Nat.lt_irrefl _ hlt
+          simp [this]
   · simp only [hn, ne_eq, not_false_eq_true, if_true]
-    exact ⟨h, fun _ => hCv, fun _ _ _ _ => rfl, fun hx => absurd hx hn⟩
+    exact ⟨h, fun _ => hCv, fun _ _ _ _ => rfl, fun hx => absurd hx hn, fun _ _ _ => rfl⟩
 
 
 theorem ptr_eq_ptrR (st : Store) (blks : List Nat) (q : Pos) :
@@ -492,12 +507,12 @@ theorem dstep_ok (s : S) (blks : List Nat) (h : WFB s blks) (off : Nat)
     rcases alloc_cases s with ⟨_, ha⟩ | ⟨a, rest, hal, ha⟩
     · rw [ha]
       simp only [if_true]
-      exact ⟨⟨h, fun hx => absurd rfl hx, fun _ _ _ _ => rfl, fun _ _ _ _ => rfl⟩, trivial⟩
+      exact ⟨⟨h, fun hx => absurd rfl hx, fun _ _ _ _ => rfl, fun _ _ _ _ => rfl, fun _ _ _ => rfl⟩, trivial⟩
     · rw [ha]
       simp only
       by_cases ha0 : a = 0
       · simp only [ha0, if_true]
-        exact ⟨⟨WFB_skip s _ blks a rest h hal rfl rfl, fun hx => absurd rfl hx, fun _ _ _ _ => rfl, fun _ _ _ _ => rfl⟩, trivial⟩
+        exact ⟨⟨WFB_skip s _ blks a rest h hal rfl rfl, fun hx => absurd rfl hx, fun _ _ _ _ => rfl, fun _ _ _ _ => rfl, fun _ _ _ => rfl⟩, trivial⟩
       · simp only [ha0, if_false]
         refine ⟨?_, trivial⟩
         -- link the new middle block first, then fill its cell
@@ -538,7 +553,7 @@ theorem dstep_ok (s : S) (blks : List Nat) (h : WFB s blks) (off : Nat)
         have e1 : ({ s with allocs := rest } : S).st = s.st := rfl
         rw [← hres] at hstep
         simp only at hstep ⊢
-        refine ⟨hstep.wf, hstep.hit, ?_, ?_⟩
+        refine ⟨hstep.wf, hstep.hit, ?_, ?_, ?_⟩
         · intro q hq hdat hne
           rw [hstep.frame q hq hdat hne, hptr1 q hq]
           have : q ≠ .dmid j := by intro he; rw [he] at hdat; exact hdat
@@ -546,6 +561,11 @@ theorem dstep_ok (s : S) (blks : List Nat) (h : WFB s blks) (off : Nat)
         · intro hb q hq hdat
           rw [hstep.miss hb q hq hdat, hptr1 q hq]
           have : q ≠ .dmid j := by intro he; rw [he] at hdat; exact hdat
+          simp [this]
+        · intro q hq hlt
+          rw [hstep.above q hq hlt, hptr1 q hq]
+          have : q ≠ .dmid j := by
+            intro he; rw [he] at hlt; simp only [firstBn] at hlt; omega
           simp [this]
   · simp only [hm, ne_eq, not_false_eq_true, if_true]
     refine ⟨?_, trivial⟩
@@ -559,7 +579,7 @@ theorem dstep_ok (s : S) (blks : List Nat) (h : WFB s blks) (off : Nat)
 
 
 theorem StepOK.refl' (s : S) (blks : List Nat) (h : WFB s blks) (t : Pos) : StepOK s s blks blks t 0 :=
-  ⟨h, fun hx => absurd rfl hx, fun _ _ _ _ => rfl, fun _ _ _ _ => rfl⟩
+  ⟨h, fun hx => absurd rfl hx, fun _ _ _ _ => rfl, fun _ _ _ _ => rfl, fun _ _ _ => rfl⟩
 
 /-- `bmap` on a well-formed tree: the tree stays well-formed (no block gets a second owner, what
     the allocator still holds stays unused and zero), a block returned for `bn` is the block the
@@ -587,15 +607,19 @@ theorem bmap_ok (s : S) (blks : List Nat) (bn : Nat) (h : WFB s blks)
         by_cases ha0 : a = 0
         · subst ha0
           simp only [hsame]
-          exact ⟨WFB_skip s _ blks 0 rest h hal rfl rfl, fun hx => absurd rfl hx, fun _ _ _ _ => rfl, fun _ _ _ _ => rfl⟩
+          exact ⟨WFB_skip s _ blks 0 rest h hal rfl rfl, fun hx => absurd rfl hx, fun _ _ _ _ => rfl, fun _ _ _ _ => rfl, fun _ _ _ => rfl⟩
         · have hptr := ptr_set_dir s.st blks bn a h.len h1
-          refine ⟨WFB_extend s _ blks _ (.dir bn) a rest h hal rfl ha0 h1 (by simp [h.len]) hptr ?_, ?_, ?_, fun hx => absurd hx ha0⟩
+          refine ⟨WFB_extend s _ blks _ (.dir bn) a rest h hal rfl ha0 h1 (by simp [h.len]) hptr ?_, ?_, ?_, fun hx => absurd hx ha0, ?_⟩
           · intro b hb hb0 x
             exact (h.fresh b (by rw [hal]; exact List.mem_cons_of_mem _ hb) hb0).2 x
           · intro _; rw [hptr (.dir bn) h1]; simp
           · intro q hq _ hne; rw [hptr q hq]; simp [hne]
+          · intro q hq hlt
+            rw [hptr q hq]
+            have : q ≠ .dir bn := by intro he; rw [he] at hlt; exact Nat.lt_irrefl _ hlt
+            simp [this]
     · simp only [h0, if_false]
-      exact ⟨h, fun _ => by rw [ptr_eq_ptrR]; rfl, fun _ _ _ _ => rfl, fun hx => absurd hx h0⟩
+      exact ⟨h, fun _ => by rw [ptr_eq_ptrR]; rfl, fun _ _ _ _ => rfl, fun hx => absurd hx h0, fun _ _ _ => rfl⟩
   · simp only [h1, if_false]
     by_cases h2 : bn - NDIRECT < NBLKBLK
     · -- single indirect
@@ -611,7 +635,7 @@ theorem bmap_ok (s : S) (blks : List Nat) (bn : Nat) (h : WFB s blks)
           simp only
           by_cases ha0 : a = 0
           · simp only [ha0, if_true, ne_eq, not_true_eq_false, decide_false, if_false]
-            exact ⟨WFB_skip s _ blks a rest h hal rfl rfl, fun hx => absurd rfl hx, fun _ _ _ _ => rfl, fun _ _ _ _ => rfl⟩
+            exact ⟨WFB_skip s _ blks a rest h hal rfl rfl, fun hx => absurd rfl hx, fun _ _ _ _ => rfl, fun _ _ _ _ => rfl, fun _ _ _ => rfl⟩
           · simp only [ha0, if_false]
             rw [indbmap_one _ _ _ ha0]
             simp only [ne_eq, ha0, not_false_eq_true, decide_true, if_true]
@@ -635,7 +659,7 @@ theorem bmap_ok (s : S) (blks : List Nat) (bn : Nat) (h : WFB s blks)
                 show ptr (s.st.put a off b) (blks.set INDIRECT a) q = if q = .ileaf off then b else ptr s.st (blks.set INDIRECT a) q
                 rw [ptr_eq_ptrR, ptr_eq_ptrR, h8]
                 exact ptrR_put_iroot s.st _ a _ (by have := hW1.injR; rw [h8] at this; exact this) off b ha0 q hq)
-            refine ⟨hstep.wf, hstep.hit, ?_, ?_⟩
+            refine ⟨hstep.wf, hstep.hit, ?_, ?_, ?_⟩
             · intro q hq hdat hne
               rw [hstep.frame q hq hdat hne]
               show ptr s.st (blks.set INDIRECT a) q = _
@@ -647,6 +671,13 @@ theorem bmap_ok (s : S) (blks : List Nat) (bn : Nat) (h : WFB s blks)
               show ptr s.st (blks.set INDIRECT a) q = _
               rw [hptr1 q hq]
               have : q ≠ .iroot := by intro he; rw [he] at hdat; exact hdat
+              simp [this]
+            · intro q hq hlt
+              rw [hstep.above q hq hlt]
+              show ptr s.st (blks.set INDIRECT a) q = _
+              rw [hptr1 q hq]
+              have : q ≠ .iroot := by
+                intro he; rw [he] at hlt; simp only [firstBn] at hlt; omega
               simp [this]
       · rw [indbmap_one _ _ _ hr]
         simp only [ne_eq, not_true_eq_false, decide_false, if_false]
@@ -675,7 +706,7 @@ theorem bmap_ok (s : S) (blks : List Nat) (bn : Nat) (h : WFB s blks)
           simp only
           by_cases ha0 : a = 0
           · simp only [ha0, if_true, hsame0, ite_self]
-            exact ⟨WFB_skip s _ blks a rest h hal rfl rfl, fun hx => absurd rfl hx, fun _ _ _ _ => rfl, fun _ _ _ _ => rfl⟩
+            exact ⟨WFB_skip s _ blks a rest h hal rfl rfl, fun hx => absurd rfl hx, fun _ _ _ _ => rfl, fun _ _ _ _ => rfl, fun _ _ _ => rfl⟩
           · simp only [ha0, if_false]
             have haf := h.fresh a (by rw [hal]; simp) ha0
             have hptr1 := ptr_set_droot s.st blks a h.len hr haf.2
@@ -696,7 +727,7 @@ theorem bmap_ok (s : S) (blks : List Nat) (bn : Nat) (h : WFB s blks)
               · exact fun he => haf.1 .iroot trivial (by rw [ptr_eq_ptrR]; simp only [ptrR]; exact he.symm)
             rw [hroot]
             simp only [ne_eq, hflag, not_false_eq_true, decide_true, if_true]
-            refine ⟨hstep.wf, hstep.hit, ?_, ?_⟩
+            refine ⟨hstep.wf, hstep.hit, ?_, ?_, ?_⟩
             · intro q hq hdat hne
               rw [hstep.frame q hq hdat hne]
               show ptr s.st (blks.set DINDIRECT a) q = _
@@ -708,6 +739,13 @@ theorem bmap_ok (s : S) (blks : List Nat) (bn : Nat) (h : WFB s blks)
               show ptr s.st (blks.set DINDIRECT a) q = _
               rw [hptr1 q hq]
               have : q ≠ .droot := by intro he; rw [he] at hdat; exact hdat
+              simp [this]
+            · intro q hq hlt
+              rw [hstep.above q hq hlt]
+              show ptr s.st (blks.set DINDIRECT a) q = _
+              rw [hptr1 q hq]
+              have : q ≠ .droot := by
+                intro he; rw [he] at hlt; simp only [firstBn] at hlt; omega
               simp [this]
       · obtain ⟨hstep, hroot⟩ := dstep_ok s blks h off hr hofflt
         rw [hroot]
